@@ -3,6 +3,8 @@
 package fix
 
 import (
+	"log"
+	"math"
 	"sort"
 	"strings"
 	"sync"
@@ -227,7 +229,7 @@ func (h *holder) Get(k int) int {
 	return h.m[k]
 }
 
-func NewHolder() *holder { return &holder{g: &guarded{}, m: map[int]int{1: 10}} }
+func NewHolder() *holder   { return &holder{g: &guarded{}, m: map[int]int{1: 10}} }
 func NewGuarded() *guarded { return &guarded{} }
 
 // ---- goroutines ----
@@ -331,7 +333,7 @@ func Lazy() int { initLazy(); return len(lazyTable) + lazyVal() }
 
 var guardedCache = struct {
 	sync.Mutex // the mutex lives inside the variable it protects
-	m map[string]int
+	m          map[string]int
 }{m: map[string]int{}}
 
 func GuardedGet(k string) int {
@@ -725,4 +727,112 @@ func ChanPool(xs []int) int {
 		sum += v
 	}
 	return sum
+}
+
+// ---- fifth review round ----
+
+func pick(m map[string]int, keep func(string) bool) map[string]int {
+	out := map[string]int{}
+	for k, v := range m {
+		if keep(k) {
+			out[k] = v
+		}
+	}
+	return out
+}
+
+// Round5Ranges: a map range whose operand holds a closure with a loop; goto to a labeled
+// map range whose operand is a call (from after and from inside the loop); NaN keys; a
+// labeled range over a variable that the body reassigns.
+func Round5Ranges() int {
+	m := map[string]int{"a": 1, "bb": 2, "ccc": 3, "dddd": 4}
+	total := 0
+	for _, v := range pick(m, func(k string) bool {
+		n := 0
+		for range k {
+			n++
+		}
+		return n%2 == 0
+	}) {
+		total += v // 2 + 4
+	}
+	pending := map[int]bool{1: true, 2: true, 3: true}
+	remaining := func() map[int]bool { return pending }
+	rounds := 0
+again:
+	for k := range remaining() {
+		delete(pending, k)
+		rounds++
+		if rounds == 1 {
+			goto again // re-evaluates the operand
+		}
+	}
+	if len(pending) > 0 {
+		goto again
+	}
+	total += rounds * 10 // 3 rounds
+	nan := map[float64]int{math.NaN(): 5, math.NaN(): 6, 1.5: 7}
+	for _, v := range nan {
+		total += v // 18
+	}
+	cur := map[string]int{"x": 1, "y": 2}
+outer:
+	for k := range cur {
+		if k == "x" || k == "y" {
+			cur = map[string]int{"z": 100}
+			total += 1000
+			continue outer
+		}
+	}
+	return total // 6 + 30 + 18 + 2000
+}
+
+type ringLog struct{ lines []string }
+
+// Write is called by log.Logger under the logger's own mutex.
+func (r *ringLog) Write(p []byte) (int, error) {
+	for i := 0; i < 1; i++ {
+		r.lines = append(r.lines, string(p))
+	}
+	if len(r.lines) > 8 {
+		r.lines = r.lines[len(r.lines)-8:]
+	}
+	return len(p), nil
+}
+
+var ring = &ringLog{}
+var diagLog = log.New(ring, "", 0)
+
+var exprGuard sync.RWMutex
+var exprMemo = map[string]int{}
+
+func twoValues() (int, int) { return 4, 5 }
+
+// Round5Sync: locks taken through method expressions and through a method value of an
+// interface; a go statement whose arguments are the results of a multi-value call; a
+// callback of the library running under a lock of the standard library (log.Logger).
+func Round5Sync(k string) int {
+	rlock, runlock := (*sync.RWMutex).RLock, (*sync.RWMutex).RUnlock
+	rlock(&exprGuard)
+	v, ok := exprMemo[k]
+	runlock(&exprGuard)
+	if !ok {
+		(*sync.RWMutex).Lock(&exprGuard)
+		exprMemo[k] = len(k)
+		v = exprMemo[k]
+		(*sync.RWMutex).Unlock(&exprGuard)
+	}
+	var l sync.Locker = &exprGuard
+	l.Lock()
+	unlock := l.Unlock
+	exprMemo[k] = v
+	unlock()
+	var wg sync.WaitGroup
+	out := make([]int, 2)
+	wg.Add(1)
+	store := func(a, b int) { defer wg.Done(); out[0], out[1] = a, b }
+	go store(twoValues())
+	wg.Wait()
+	diagLog.Printf("memo %s", k)
+	return v + out[0] + out[1]
 }
